@@ -6,6 +6,8 @@ variables, repeated variables and boundary constants, in two contexts, chains up
 (D) the real front-end produces the specification with rules enabled and with -no-simplification, for
 the gas and the size criterion; (V) TLC (spec/SFSDenote.tla over Words/EVM) evaluates BOTH specifications
 on the grid and compares each with the concrete run of the block, hence with each other."""
+import concurrent.futures as cf
+import re
 import time
 
 import c02
@@ -32,9 +34,36 @@ def const_blocks(vals):
     return out
 
 
+def catalogue(tier):
+    """(M) spec/Rules.tla: every catalogued rule is an identity at 8 bits (all operands), 16 and 256 bits (boundary
+    operands), every rejected reading has a counterexample.  Returns the catalogue [(name, arity, pattern block)]."""
+    cfgs = ["Rules2.cfg", "Rules32.cfg"] + (["Rules1.cfg"] if tier != "quick" else [])
+    with cf.ThreadPoolExecutor(max_workers=3) as ex:
+        rs = list(ex.map(lambda c: common.run_tlc("Rules", c, workers=1, heap="3g", tag="rules", timeout=1800), cfgs))
+    cat, states = [], 0
+    for c, r in zip(cfgs, rs):
+        bad = r.tagged("UNSOUND") + r.tagged("NOT-REFUTED")
+        if bad or not r.ok:
+            raise common.MachineryError("rule catalogue %s rejected (the catalogue transcribes the rules of the unchanged tree; "
+                                        "correct spec/Rules.tla): %r\n%s" % (c, bad, r.out[-1500:]))
+        states += r.distinct
+        if not cat:
+            cat = [(t[1], t[2], t[3]) for t in r.tagged("RULE")]
+    return cat, states
+
+
+def block_key(text):
+    return (" ".join(text.split()) + " ").replace("PUSH 0 ", "PUSH0 ")
+
+
+def rule_key(name):
+    return re.sub(r"[^A-Z]", "", re.sub(r"[0-9]+", "N", name))
+
+
 def run(tier):
     t0 = time.time()
     seed = common.seed()
+    cat, cstates = catalogue(tier)
     if tier == "quick":
         basic, _ = gen.enumerate_blocks(gen.rule_vocab(gen.C5), gen.RULE_SHAPES_BASIC, 3)
         ctx, _ = gen.enumerate_blocks(gen.rule_vocab(gen.C3), gen.RULE_SHAPES_CTX, 3)
@@ -50,7 +79,7 @@ def run(tier):
         blocks = basic + ctx + const_blocks(V13)
         wc = [("WordsCheck1.cfg", "8-bit"), ("WordsCheck2.cfg", "16-bit")]
         pairs = chain            # chains of up to three operators: rules on only, validated where a rule fired
-    hand = corpus.hand_blocks()
+    hand = corpus.hand_blocks() + [p for _, _, p in cat]
     cmds = [{"cmd": "sfs", "text": t} for t in hand + blocks]
     # (M) the oracle is checked before it is believed
     wstates = 0
@@ -96,6 +125,14 @@ def run(tier):
     out = findings.settle("C03", viol, lambda c: {"sub_block": c["_sub"], "block": c["_block"], "options": c["_opt"], "rules": c["_rules"],
                                                   "key": c["_sub"] + " @" + c["_opt"]},
                           lambda c: [c["_sub"] + " @" + c["_opt"]] + ["rule|" + k for k in findings.rule_kinds(c["_rules"])])
+    # the catalogue against the code: which catalogued rule fires on its own pattern, which reported rule is not catalogued
+    own = {}
+    for c in cases:
+        if c["_opt"] == "rules-gas":
+            own.setdefault(block_key(c["_block"]), set()).update(rule_key(k) for k in findings.rule_kinds(c["_rules"]))
+    cat_fired = sorted(n for n, _, p in cat if rule_key(n) in own.get(block_key(p), ()))
+    cat_keys = {rule_key(n) for n, _, _ in cat}
+    outside = sorted(k for k in fired if rule_key(k) not in cat_keys and k not in ("EVAL", "LOAD-FORWARD", "NOT(X)", "ISZ(N)"))
     if len(fired) < 15:
         raise common.MachineryError("vacuity guard: only %d distinct rule kinds fired" % len(fired))
     cov = {"states": st["states"] + wstates, "transitions": st["transitions"] + wstates, "traces_validated_against_impl": len(cases),
@@ -104,7 +141,10 @@ def run(tier):
            "evaluations": cnt["specs"], "distinct_nontrivial": rules_cases,
            "rule": "one evaluation = one specification produced by the real front-end for a generated rule instantiation under one option set; "
                    "distinct = distinct (specification, block); non-trivial = at least one rule or constant folding fired",
-           "word_library_selfcheck_states": wstates, "grid_initial_states": st["inits"], "undecided_cases": undec,
+           "word_library_selfcheck_states": wstates, "rule_catalogue": {"rules": len(cat), "tlc_states": cstates,
+                                                                         "fired_on_own_pattern": len(cat_fired),
+                                                                         "not_fired_on_own_pattern": sorted(n for n, _, _ in cat if n not in cat_fired),
+                                                                         "reported_by_code_not_catalogued": outside}, "grid_initial_states": st["inits"], "undecided_cases": undec,
            "distinct_rule_kinds_fired": sorted(fired), "driver": cnt, "option_sets": [n for n, _ in sets],
            "violating": len(viol), "exhaustive": False, "tlc_wall_s": round(st["wall"], 1)}
     return {"level": "model_checking", "coverage": cov, "violations": out, "wall": time.time() - t0,
